@@ -250,7 +250,20 @@ def scripted():
             fails.append({"what": "C15/scripted/monitors_of_different_connections_aliased", "input": dict(scenario="S3: cells a (connection c1, driven) and b (connection c2, silent)"), "expected": "distinct monitors: a sees spikes, b sees none", "actual": dict(same_object=pa is pb, a_any=bool(va.any()), b_any=bool(vb.any()))})
     except Exception as e:  # noqa: BLE001
         fails.append({"what": "C15/scripted/exception", "input": dict(scenario="S3"), "expected": "no exception", "actual": f"{type(e).__name__}: {e}"})
-    return fails, 3
+    try:
+        lay, tr = setup()
+        for (cn, mn), _m in list(tr.named_monitors):
+            if cn == "a":
+                tr.del_monitor("a", mn)
+        tr.del_cell("a")
+        tr.register_cell("a", lay.cells.c1.n)
+        mb = tr.get_monitor("a", "spike_post")
+        got = recorded(lay, mb)
+        if got != 1:
+            fails.append({"what": "C15/scripted/reregistered_cell_not_observed", "input": dict(scenario="S4"), "expected": 1, "actual": got})
+    except Exception as e:  # noqa: BLE001
+        fails.append({"what": "C15/scripted/cell_cannot_be_registered_again_after_its_monitors_were_deleted", "input": dict(scenario="S4: register a, b; delete every monitor of a; del_cell(a); register a again"), "expected": "accepted", "actual": f"{type(e).__name__}: {e}"})
+    return fails, 4
 
 
 def d16():
